@@ -141,6 +141,8 @@ class Family(object):
         self.status_count = {}
         for e in exp.values():
             self.status_count[e["status"]] = self.status_count.get(e["status"], 0) + 1
+        for i in getattr(res, "dropped_overflow", []):
+            exp[i] = {"out": "", "status": "fuel", "atoms": []}
         missing = [i for i in self.progs if i not in exp]
         if missing:
             raise vlib.MachineryError("AldorSem produced no behaviour for %d programs (e.g. %s)" % (len(missing), missing[0]))
